@@ -1378,7 +1378,15 @@ def run(ctx):
     rng = ctx.rng
     import time
     t0 = time.time()
+    # second tie: re-translate the decision code of request.py / elements.py / utils.py / json_io.py from /repo's source;
+    # the equivalence lemmas of Proofs/VerdictGen.v are then re-checked by check_props against what the code says now
+    from . import pygen_c13
+    gen_ok, gen_msg = pygen_c13.regenerate()
     ctx.proof = common.check_props('C13')
+    if not gen_ok:
+        ctx.proof['ok'] = False
+        ctx.proof['log'] = 'harness/pygen_c13.py: ' + gen_msg + '\n' + ctx.proof.get('log', '')
+        ctx.proof['failed_file'] = 'theories/Gen/VerdictGen.v (translation of /repo source failed)'
     ctx.extra['t_proof_s'] = round(time.time() - t0, 1)
     ctx.rule = ('(a) random receivers x histories of update_snr calls; (b) random penalty lists x impairment arrays; '
                 '(c) whole decisions: random 2-4 ROADM networks (random amplifier p_max, ROADM add/drop OSNR, PMD, PDL), random '
@@ -1491,6 +1499,10 @@ def run(ctx):
             ctx.count('amplifier_histories_with_a_clamp')
         judge_amp(ctx, case_public(c), t, line)
     ctx.assumptions += [
+        'translator tie: harness/pygen_c13.py (fail-closed Python-ast -> Gallina for the fixed-mode verdict of '
+        'compute_path_with_disjunction, the filters / sort key / acceptance test / reasons of propagate_and_optimize_mode, '
+        'Transceiver._calc_penalty, snr_sum, Transceiver.update_snr, the penalty normalisation test of json_io; the code around '
+        'them is matched literally against templates; dB values are translated symbolically into 1/linear)',
         'receiver figures handed to the model are computed here from the line GSNR of a fresh propagation '
         '(10^(-x/10), log10 of the Python math module) plus the add/drop OSNR of the equipment description and the mode tx_osnr',
         'decisions whose rounded metric equals the threshold (or sits on a rounding tie) are not judged (counted)',
